@@ -1,7 +1,7 @@
 """C05 — client subscription stream: classifier agreement, routing chain, lag handling, single unsubscribe."""
 import re
 
-from .common import fkey, where, short, arg_is_local, enclosing_loop_next, follow_value, block_line, terminal_field
+from .common import fkey, where, short, arg_is_local, enclosing_loop_next, follow_value, block_line, terminal_field, CORE
 from ..facts import op_place, op_const, AnchorLost, is_test_body
 from .. import flow
 
@@ -548,7 +548,46 @@ def rsel_shutdown_is_a_select_branch(ctx):
     shutdown_is_a_select_branch(ctx, "C05.SEL")
 
 
-RULES = [rsel_shutdown_is_a_select_branch, r1_classifier_agreement, r2_routing, r3_lag_and_close, r4_single_unsubscribe, r5_close_messages_are_not_lossy, r6_refused_insert_is_pure, r7_classifiers_are_plain, r8_client_builder_fields, r9_lagged_is_reported_as_lagged, r10_sub_ids_spelled_alike, r11_response_attempt_unconditional, r12_stream_ends_only_when_channel_ends, r13_channel_is_the_only_buffer, r14_classifiers_accept_any_payload, r15_routing_does_not_end_subscriptions, r16_every_notification_kind_counts_as_content, rarr_every_element, rcancel_receive_is_cancel_safe, rkeys_manager_keys_not_derived]
+def r17_an_accepted_subscription_is_registered_or_cancelled(ctx):
+    """once the server has accepted a subscribe call (a success response whose result decodes as a subscription id) the
+    client either owns the subscription (insert_subscription) or cancels it (the unsubscribe built when the caller is gone,
+    R4): on every path from the decoded id to the end of the function the subscription is handed to the request manager.
+    A shortcut that returns first (`the caller already gave up, nothing to set up`) leaves the server pushing
+    notifications for a subscription the client will never unsubscribe - `merely dropping the stream sends exactly one
+    unsubscribe` becomes zero."""
+    F, R = ctx.F, ctx.R
+    n = 0
+    for b in F.real_bodies():
+        if b.crate != CORE or is_test_body(b) or not b.path.startswith("jsonrpsee_core::client::async_client::"):
+            continue
+        ins = b.calls_to(r"RequestManager::insert_subscription$")
+        if not ins:
+            continue
+        dec = [c for c in b.calls_to(r"^serde_json::(de::)?from_str$") if any("SubscriptionId" in g for g in (c.ga or []))]
+        for d in dec:
+            n += 1
+            R.fn(b)
+            ok_t = None
+            for sb, arms, other in flow.switch_on(b, d.dest["l"]):
+                ok_t = arms.get("0")
+            if ok_t is None:
+                R.anchor_lost("C05.R17", "the match on the decoded subscription id in %s" % b.path)
+                continue
+            through = {c.bb for c in ins}
+            ok = ok_t in through or flow.all_paths_pass(b, ok_t, through)
+            R.check(ok, "C05.R17", "%s:accepted->registered" % fkey(b), "an accepted subscription always reaches insert_subscription", "%s can return after the server accepted the subscription without registering it (a path from the decoded subscription id leaves the function before insert_subscription): the server keeps sending notifications, the client neither yields them nor ever sends the unsubscribe request" % short(b.path), "%s:%d" % (b.file, block_line(b, ok_t)))
+    R.floor("C05.R17", n, 1, "decodes of the accepted subscription id next to insert_subscription")
+
+
+# an unsubscribe request (like any request) is on record before it is written: its reply - which the server does send -
+# otherwise matches nothing pending and ends the connection, and with it every other stream, for none of the listed
+# reasons (= C03.R3)
+def r18_requests_are_on_record_before_they_are_written(ctx):
+    from . import c03
+    c03.r3_insert_before_send(ctx)
+
+
+RULES = [r17_an_accepted_subscription_is_registered_or_cancelled, r18_requests_are_on_record_before_they_are_written, rsel_shutdown_is_a_select_branch, r1_classifier_agreement, r2_routing, r3_lag_and_close, r4_single_unsubscribe, r5_close_messages_are_not_lossy, r6_refused_insert_is_pure, r7_classifiers_are_plain, r8_client_builder_fields, r9_lagged_is_reported_as_lagged, r10_sub_ids_spelled_alike, r11_response_attempt_unconditional, r12_stream_ends_only_when_channel_ends, r13_channel_is_the_only_buffer, r14_classifiers_accept_any_payload, r15_routing_does_not_end_subscriptions, r16_every_notification_kind_counts_as_content, rarr_every_element, rcancel_receive_is_cancel_safe, rkeys_manager_keys_not_derived]
 
 LEVEL_TEXT = (
     "Structural necessary conditions of the client's notification demultiplexing decided from the type-checked program: "
